@@ -386,7 +386,7 @@ def build_container_length_field(sizer_item_type, container_name, bound_shift):
 
         @staticmethod
         def _encode(value, endianness):
-            return sizer_item_type._encode(value + bound_shift, endianness)
+            return sizer_item_type._encode(sizer_item_type._check(value + bound_shift), endianness)
 
         @staticmethod
         def _decode(data, pos, endianness):
